@@ -11,6 +11,7 @@ mod c03;
 mod c05;
 mod c06;
 mod c07;
+mod c08;
 mod c10;
 mod c11;
 mod c12;
@@ -26,7 +27,7 @@ pub struct Family {
 }
 
 fn families() -> Vec<Family> {
-    vec![c20::family(), c15::family(), c07::family(), c05::family(), c06::family(), c10::family(), c11::family(), c12::family(), c03::family()]
+    vec![c20::family(), c15::family(), c07::family(), c05::family(), c06::family(), c08::family(), c10::family(), c11::family(), c12::family(), c03::family()]
 }
 
 pub fn hex(b: &[u8]) -> String {
